@@ -278,6 +278,11 @@ func TestVerif_C15_Sim(t *testing.T) {
 		deep = 7
 	}
 	simExplore(t, r, simExploreCfg{Scenario: "softreset", Arg: "cfg=ea;npfx=1;nvar=4;src=1;pols=02;norr;importonly", Depth: deep, Budget: budget})
+	// second sharp driver: a plain source and an ADD-PATH receiver (send-max 2), one prefix in two variants
+	// (one carries the community that policy 2 rejects), export / import policy switched between "accept
+	// all" and "reject community", all three soft resets — a replacement that the export policy rejects
+	// must take the previous version away from the ADD-PATH peer as well
+	simExplore(t, r, simExploreCfg{Scenario: "softreset", Arg: "cfg=ea;npfx=1;nvar=2;src=0;pols=02;norr;noflap;noapi;nopeers", Depth: deep, Budget: budget})
 	for _, k := range []string{"import-policy-rejects-a-route", "import-policy-modifies-a-route", "export-policy-rejects-a-route", "export-policy-modifies-a-route"} {
 		if r.Outcomes[k] == 0 && len(r.Violations) == 0 {
 			t.Fatalf("ENGINE-ERROR vacuous exploration: no state in which %s: %v", k, r.Outcomes)
